@@ -12,7 +12,12 @@ class Check(EngineCheck):
     theorems = [E + "C01_value", E + "C01_inputs", E + "C01_up_to_date_is_clean", E + "C01_value_dsl",
                 E + "DSL.program_WF", E + "step_inv", E + "reach_inv", E + "C01_value_unique", E + "Clean_unique", E + "DSL.program_Det", E + "engine_fingerprint_matches_model",
                 E + "C01_value_gen", E + "C01_value_unique_gen", E + "C01_inputs_gen", E + "reachG_inv",
-                E + "NeedSelfStable.C01_value_gen_needs_SelfStable"]
+                E + "NeedSelfStable.C01_value_gen_needs_SelfStable",
+                # the concrete engine model (transliteration of BuildEngineImpl): refinement and soundness, with and without description edits
+                "LLBuild.Refine.refinement_final", "LLBuild.Refine.EngineImpl_sound_C01",
+                "LLBuild.Refine.refinement_history_gen", "LLBuild.Refine.EngineImpl_sound_C01_gen",
+                "LLBuild.Refine.EngineImpl_sound_C01_gen_fixed", "LLBuild.Refine.EngineImpl_sound_C01_gen_bounded",
+                E + "C01_value_gen_clamp", E + "DSL.PPof_SelfStable", E + "DSL.PPof_SigCovers_forces"]
     mix = [(0.4, {}), (0.2, {"threads": True}), (0.2, {"cancel": True}), (0.2, {"reprogram": True})]
     budget = (300, 3000)
 
